@@ -15,15 +15,15 @@ import (
 
 // Ctx is what a property check gets.
 type Ctx struct {
-	P     *ir.Program
-	R     *report.Report
-	Tier  string
-	la    *locks.Analysis
-	goFns []*ssa.Function
-	oe    *own.Eng
-	phiSeen  map[*ssa.Phi]int
-	phiSeen2 map[*ssa.Phi]int
-	phiSeen3 map[*ssa.Phi]int
+	P           *ir.Program
+	R           *report.Report
+	Tier        string
+	la          *locks.Analysis
+	goFns       []*ssa.Function
+	oe          *own.Eng
+	phiSeen     map[*ssa.Phi]int
+	phiSeen2    map[*ssa.Phi]int
+	phiSeen3    map[*ssa.Phi]int
 	freshListFn map[*ssa.Function]int
 }
 
@@ -58,7 +58,6 @@ func IDs() []string {
 	sort.Strings(ids)
 	return ids
 }
-
 
 func must(cond bool, format string, a ...any) {
 	if !cond {
